@@ -20,8 +20,9 @@ def msg_bytes(M, L):
     return full + ([part] if r else [])
 
 
-def pad(scheme, B, M, L=None, w=32, hsize=256):
-    """returns (padded byte list, padcnt in bits or None).  B: block size in bits."""
+def pad(scheme, B, M, L=None, w=32, hsize=256, base=0):
+    """returns (padded byte list, padcnt in bits or None).  B: block size in bits.
+    base: message bits already consumed before M (a multiple of B); only the length field depends on it."""
     if L is None:
         L = 8 * len(M)
     Bb = B // 8
@@ -57,7 +58,7 @@ def pad(scheme, B, M, L=None, w=32, hsize=256):
             out.append(0)
         if scheme == 'Blakepadding' and hsize in (256, 512):
             out[-1] = out[-1] | 1        # the bit just before the length field
-        lb = [(L >> (8 * i)) & 0xff for i in range(lf)]
+        lb = [((base + L) >> (8 * i)) & 0xff for i in range(lf)]
         if scheme != 'MDpadding':
             lb.reverse()
         return out + lb, None
